@@ -83,13 +83,23 @@ type L1 struct {
 }
 
 // PermKeeper is an in-store stand-in for initia's ibcperm keeper.
-type PermKeeper struct{ key *storetypes.KVStoreKey }
+type PermKeeper struct {
+	key *storetypes.KVStoreKey
+	// FailIsTaken: while set, every "does this channel already have an admin" lookup fails (the permission store is
+	// unavailable); IsTakenFailures counts the lookups that were failed.
+	FailIsTaken     bool
+	IsTakenFailures int
+}
 
 func pcKey(portID, channelID string) []byte {
 	return []byte(fmt.Sprintf("%d/%s/%s", len(portID), portID, channelID))
 }
 
 func (p *PermKeeper) IsTaken(ctx context.Context, portID, channelID string) (bool, error) {
+	if p.FailIsTaken {
+		p.IsTakenFailures++
+		return false, fmt.Errorf("injected fault: permission store unavailable")
+	}
 	return sdk.UnwrapSDKContext(ctx).KVStore(p.key).Has(pcKey(portID, channelID)), nil
 }
 
@@ -209,7 +219,7 @@ func buildL1(ctx sdk.Context, keys map[string]*storetypes.KVStoreKey, opts L1Opt
 	router.SetInterfaceRegistry(enc.InterfaceRegistry)
 	banktypes.RegisterMsgServer(router, bankkeeper.NewMsgServerImpl(bk))
 
-	perm := &PermKeeper{keys[PermStoreKey]}
+	perm := &PermKeeper{key: keys[PermStoreKey]}
 	ch := &ChanKeeper{keys[ChanStoreKey]}
 	var hook ophosttypes.BridgeHook
 	if opts.NoHook {
